@@ -15,6 +15,26 @@ class Done(Exception):
         self.value = value
 
 
+class Return(Exception):
+    def __init__(self, value):
+        self.value = value
+
+
+class Break(Exception):
+    pass
+
+
+class Continue(Exception):
+    pass
+
+
+class Box:
+    """a mutable local (`let mut`)"""
+
+    def __init__(self, v):
+        self.v = v
+
+
 class Closure:
     def __init__(self, node, env, ev):
         self.node, self.env, self.ev = node, env, ev
@@ -41,8 +61,10 @@ def _pred(p):
 
 
 class StrEval:
-    def __init__(self, sinks=()):
+    def __init__(self, sinks=(), fns=None):
         self.sinks = set(sinks)  # function names that end the pipeline: their first argument is the result
+        self.fns = fns or {}     # other functions of the module (srcfacts fn items), interpreted on call
+        self.steps = 0
 
     def bind(self, pat, val, env):
         pk = pat.get("pk")
@@ -52,7 +74,14 @@ class StrEval:
                 val = "".join(val)
             return self.bind(pat["inner"], val, env)
         if pk == "ident":
-            env[pat["name"]] = val
+            env[pat["name"]] = Box(val) if pat.get("mut") else val
+            return
+        if pk == "tuple":
+            vals = list(val)
+            if len(vals) != len(pat["elems"]):
+                raise Unknown("tuple pattern arity")
+            for p_, v_ in zip(pat["elems"], vals):
+                self.bind(p_, v_, env)
             return
         if pk == "wild":
             return
@@ -73,16 +102,69 @@ class StrEval:
             elif k == "expr_stmt":
                 v = self.eval(st["expr"], env)
                 last = None if st.get("semi") else v
+            elif k in ("use", "other_item", "fn", "const"):
+                continue
             else:
                 raise Unknown("statement %s" % k)
         return last
 
     def eval(self, e, env):
         k = e.get("k")
+        self.steps += 1
+        if self.steps > 2000000:
+            raise Unknown("evaluation budget exceeded")
         if k == "path":
             if e["path"] in env:
-                return env[e["path"]]
+                v = env[e["path"]]
+                return v.v if isinstance(v, Box) else v
+            if e["path"].split("::")[-1] in self.fns:
+                return ("fn", e["path"].split("::")[-1])
             raise Unknown("name %s" % e["path"])
+        if k == "if":
+            c = e["cond"]
+            if c.get("k") == "let_cond":
+                raise Unknown("if let")
+            if self.eval(c, env):
+                return self.block(e["then"], env)
+            if e.get("else"):
+                return self.eval(e["else"], env)
+            return None
+        if k == "for":
+            it = self.eval(e["iter"], env)
+            if isinstance(it, str):
+                raise Unknown("for over a string")
+            for item in list(it):
+                env2 = dict(env)
+                self.bind(e["pat"], item, env2)
+                try:
+                    self.block_shared(e["body"], env2)
+                except Continue:
+                    continue
+                except Break:
+                    break
+            return None
+        if k == "assign":
+            l = e["l"]
+            if l.get("k") == "path" and isinstance(env.get(l["path"]), Box):
+                env[l["path"]].v = self.eval(e["r"], env)
+                return None
+            raise Unknown("assignment target")
+        if k == "return":
+            raise Return(self.eval(e["e"], env) if e.get("e") else None)
+        if k == "break":
+            raise Break()
+        if k == "continue":
+            raise Continue()
+        if k == "tuple":
+            return tuple(self.eval(x, env) for x in e["elems"])
+        if k == "cast":
+            return self.eval(e["e"], env)
+        if k == "range":
+            lo = self.eval(e["lo"], env) if e.get("lo") else 0
+            if not e.get("hi"):
+                raise Unknown("open range")
+            hi = self.eval(e["hi"], env)
+            return list(range(lo, hi + (1 if e.get("inclusive") else 0)))
         if k == "lit":
             if e.get("ty") in ("char", "str"):
                 return e["v"]
@@ -102,6 +184,24 @@ class StrEval:
             if e["op"] == "!":
                 return not v
             raise Unknown("unary")
+        if k == "binary" and e["op"] in ("+=", "-="):
+            l = e["l"]
+            if l.get("k") == "path" and isinstance(env.get(l["path"]), Box):
+                r = self.eval(e["r"], env)
+                cur = env[l["path"]].v
+                if e["op"] == "+=":
+                    env[l["path"]].v = (cur + r) if not isinstance(cur, list) else cur + list(r)
+                else:
+                    env[l["path"]].v = cur - r
+                return None
+            raise Unknown("compound assignment target")
+        if k == "binary" and e["op"] in ("+", "-", "*") :
+            l, r = self.eval(e["l"], env), self.eval(e["r"], env)
+            if isinstance(l, int) and isinstance(r, int) and not isinstance(l, bool):
+                return {"+": l + r, "-": l - r, "*": l * r}[e["op"]]
+            if e["op"] == "+" and isinstance(l, str) and isinstance(r, str):
+                return l + r
+            raise Unknown("arithmetic")
         if k == "binary":
             op = e["op"]
             if op == "||":
@@ -133,10 +233,33 @@ class StrEval:
             args = [self.eval(a, env) for a in e["args"]]
             if short in self.sinks:
                 raise Done(short, args[0])
+            if short in self.fns and name.count("::") <= 1:
+                return self.call_fn(self.fns[short], args)
+            if name in ("Vec::new", "String::new") and not args:
+                return [] if name.startswith("Vec") else ""
+            if name in ("Vec::with_capacity", "String::with_capacity") and len(args) == 1:
+                return [] if name.startswith("Vec") else ""
+            if name in ("Some",) and len(args) == 1:
+                return args[0]
             if name in ("String::from", "String::from_iter", "Vec::from_iter") and len(args) == 1:
                 return "".join(args[0]) if isinstance(args[0], list) and name.startswith("String") else args[0]
             raise Unknown("call %s" % name)
         if k == "method":
+            r0 = e["recv"]
+            if e["method"] in ("push", "push_str", "extend", "clear", "extend_from_slice") and r0.get("k") == "path" and isinstance(env.get(r0["path"]), Box):
+                box = env[r0["path"]]
+                args = [self.eval(a, env) for a in e["args"]]
+                m = e["method"]
+                if m == "clear":
+                    box.v = [] if isinstance(box.v, list) else ""
+                elif isinstance(box.v, list):
+                    box.v = box.v + ([args[0]] if m == "push" else list(args[0]))
+                elif isinstance(box.v, str):
+                    a0 = args[0]
+                    box.v = box.v + (a0 if isinstance(a0, str) else "".join(a0))
+                else:
+                    raise Unknown("push on %s" % type(box.v).__name__)
+                return None
             recv = self.eval(e["recv"], env)
             args = [self.eval(a, env) for a in e["args"]]
             return self.method(e, e["method"], recv, args)
@@ -161,6 +284,19 @@ class StrEval:
     def method(self, e, m, recv, args):
         is_s = isinstance(recv, str)
         is_l = isinstance(recv, list)
+        args = [(lambda *a, _n=x[1]: self.call_fn(self.fns[_n], list(a))) if isinstance(x, tuple) and len(x) == 2 and x[0] == "fn" else x for x in args]
+        if is_l and m == "enumerate" and not args:
+            return [(i, x) for i, x in enumerate(recv)]
+        if (is_l or is_s) and m == "len" and not args:
+            return len(recv) if is_l else len(recv.encode("utf-8"))
+        if (is_l or is_s) and m == "is_empty" and not args:
+            return len(recv) == 0
+        if is_l and m == "rev" and not args:
+            return list(reversed(recv))
+        if is_s and m in ("ends_with", "starts_with") and len(args) == 1 and isinstance(args[0], str):
+            return recv.endswith(args[0]) if m == "ends_with" else recv.startswith(args[0])
+        if is_s and m in ("strip_suffix", "strip_prefix") and len(args) == 1 and isinstance(args[0], str):
+            raise Unknown("option-returning strip")
         if m in ("to_string", "to_owned", "into", "as_str", "clone", "iter", "into_iter", "copied", "cloned", "as_ref", "borrow", "deref", "by_ref") and not args:
             return recv
         if is_s and m == "chars" and not args:
@@ -222,6 +358,22 @@ class StrEval:
             return recv in WS
         raise Unknown("method %s on %s" % (m, type(recv).__name__))
 
+    def block_shared(self, blk, env):
+        """a loop body: runs in the given environment (mutations of outer `let mut` locals are visible through Box)"""
+        return self.block(blk, env)
+
+    def call_fn(self, fn_item, args):
+        ins = fn_item["sig"]["inputs"]
+        if len(ins) != len(args) or any("pat" not in i for i in ins):
+            raise Unknown("call of %s" % fn_item.get("name"))
+        env = {}
+        for i, a in zip(ins, args):
+            self.bind(i["pat"], a, env)
+        try:
+            return self.block(fn_item["body"], env)
+        except Return as r:
+            return r.value
+
     def run_fn(self, fn_item, arg):
         """evaluate fn(arg) until a sink is called; returns (sink name, normalised text)"""
         ins = fn_item["sig"]["inputs"]
@@ -230,7 +382,10 @@ class StrEval:
         env = {}
         self.bind(ins[0]["pat"], arg, env)
         try:
-            self.block(fn_item["body"], env)
+            try:
+                self.block(fn_item["body"], env)
+            except Return:
+                pass
         except Done as d:
             v = d.value
             if isinstance(v, list):
